@@ -516,15 +516,34 @@ pub struct KhTable<T> {
     pub bigraded: Option<BTreeMap<(i64, i64), Module<T>>>,
 }
 
-struct CubeGen {
-    state: u32,
-    label: u32, // bit k = 1: X on circle k
-    q: i64,
+#[derive(Clone, Debug)]
+pub struct CubeGen {
+    pub state: u32,
+    pub label: u32, // bit k = 1: X on circle k
+    pub q: i64,
+}
+
+/// the cube of resolutions as explicit data
+pub struct Cube<T: RefRing> {
+    pub degs: Vec<i64>,
+    /// generators per homological degree
+    pub gens: BTreeMap<i64, Vec<CubeGen>>,
+    /// (state, label) -> position inside its degree
+    pub index: BTreeMap<(u32, u32), usize>,
+    /// d_i : C^i -> C^{i+1}
+    pub dmat: BTreeMap<i64, RMat<T>>,
+    /// per state: circle class of every edge, number of circles
+    pub circles: Vec<(Vec<usize>, usize)>,
 }
 
 /// The cube-of-resolutions complex of `d` over T with X^2 = hX + t.  `base_edge`: reduced
 /// theory (requires t = 0): the subcomplex with X on the circle through that edge, q shifted by +1.
 pub fn khovanov<T: RefEuclid>(d: &Diagram, h: &T, t: &T, base_edge: Option<usize>) -> KhTable<T> {
+    let Cube { degs, gens, dmat, .. } = cube(d, h, t, base_edge);
+    homology_of_complex(&degs, &gens, &dmat, h.is_zero() && t.is_zero())
+}
+
+pub fn cube<T: RefEuclid>(d: &Diagram, h: &T, t: &T, base_edge: Option<usize>) -> Cube<T> {
     assert!(base_edge.is_none() || t.is_zero());
     let n = d.n;
     let (np, nn) = (d.n_pos() as i64, d.n_neg() as i64);
@@ -633,17 +652,22 @@ pub fn khovanov<T: RefEuclid>(d: &Diagram, h: &T, t: &T, base_edge: Option<usize
             }
         }
     }
+    Cube { degs, gens, index, dmat, circles: ncirc }
+}
+
+/// homology of a complex of q-graded generators (bigraded table only if `q_graded`)
+pub fn homology_of_complex<T: RefEuclid>(degs: &[i64], gens: &BTreeMap<i64, Vec<CubeGen>>, dmat: &BTreeMap<i64, RMat<T>>, q_graded: bool) -> KhTable<T> {
     // rank(d) = number of invariant factors; torsion of H = non-unit invariant factors of d_in
     let module_of = |fin: &[T], fout: &[T], dim: usize| -> Module<T> {
         Module { rank: dim - fin.len() - fout.len(), tors: fin.iter().filter(|x| !x.is_unit()).cloned().collect() }
     };
     let none: Vec<T> = vec![];
-    let bigraded = if h.is_zero() && t.is_zero() {
+    let bigraded = if q_graded {
         // d preserves q: work block by block
         let mut big = BTreeMap::new();
         let mut factors: BTreeMap<(i64, i64), Vec<T>> = BTreeMap::new(); // of d: C^{i,q} -> C^{i+1,q}
         let mut dims: BTreeMap<(i64, i64), usize> = BTreeMap::new();
-        for &i in &degs {
+        for &i in degs {
             let empty = vec![];
             let here = gens.get(&i).unwrap_or(&empty);
             let next = gens.get(&(i + 1)).unwrap_or(&empty);
@@ -681,12 +705,12 @@ pub fn khovanov<T: RefEuclid>(d: &Diagram, h: &T, t: &T, base_edge: Option<usize
         }
     } else {
         let mut factors: BTreeMap<i64, Vec<T>> = BTreeMap::new();
-        for (&i, m) in &dmat {
+        for (&i, m) in dmat {
             if m.m > 0 && m.n > 0 {
                 factors.insert(i, m.invariant_factors_by_elimination());
             }
         }
-        for &i in &degs {
+        for &i in degs {
             let dim = gens.get(&i).map(|v| v.len()).unwrap_or(0);
             let m = module_of(factors.get(&(i - 1)).unwrap_or(&none), factors.get(&i).unwrap_or(&none), dim);
             if !m.is_zero() {
@@ -829,4 +853,124 @@ mod move_tests {
             }
         }
     }
+}
+
+
+// ---- involutive Khovanov: mapping cone of 1 + tau over F_2 ------------------------------------------
+
+/// `tau_edge[k]` = edge id that the involution sends edge k to.  Returns `None` if tau does not
+/// act on the crossings (some crossing's edge set is not mapped onto a crossing's edge set, or
+/// the match is ambiguous).
+pub fn crossing_involution(d: &Diagram, tau_edge: &[usize]) -> Option<Vec<usize>> {
+    let e = d.edge_of_dart();
+    let sets: Vec<std::collections::BTreeSet<usize>> = (0..d.n).map(|c| (0..4).map(|s| e[4 * c + s]).collect()).collect();
+    let mut out = vec![];
+    for c in 0..d.n {
+        let img: std::collections::BTreeSet<usize> = sets[c].iter().map(|&x| tau_edge[x]).collect();
+        let m: Vec<usize> = (0..d.n).filter(|&c2| sets[c2] == img).collect();
+        if m.len() != 1 {
+            return None;
+        }
+        // the 0-resolution must go to the 0-resolution: {tau e0, tau e1} is {f0,f1} or {f2,f3}
+        let c2 = m[0];
+        let pair = |a: usize, b: usize| -> std::collections::BTreeSet<usize> { [a, b].into_iter().collect() };
+        let t01 = pair(tau_edge[e[4 * c]], tau_edge[e[4 * c + 1]]);
+        if t01 != pair(e[4 * c2], e[4 * c2 + 1]) && t01 != pair(e[4 * c2 + 2], e[4 * c2 + 3]) {
+            return None;
+        }
+        out.push(c2);
+    }
+    // must be an involution
+    if (0..d.n).any(|c| out[out[c]] != c) {
+        return None;
+    }
+    Some(out)
+}
+
+/// homology of Cone(1 + tau : CKh -> CKh) over F_2, as dimensions: total per degree and
+/// (if h = t = 0) per bidegree; q(Q x) = q(x), h(Q x) = h(x) + 1
+pub fn khovanov_involutive(d: &Diagram, tau_edge: &[usize], h: &Fp<2>, t: &Fp<2>, base_edge: Option<usize>) -> Option<KhTable<Fp<2>>> {
+    let tau_x = crossing_involution(d, tau_edge)?;
+    if let Some(b) = base_edge {
+        if tau_edge[b] != b {
+            return None;
+        }
+    }
+    let c = cube::<Fp<2>>(d, h, t, base_edge);
+    // tau on generators
+    let tau_gen = |g: &CubeGen| -> (u32, u32) {
+        let mut s2 = 0u32;
+        for x in 0..d.n {
+            if g.state >> x & 1 == 1 {
+                s2 |= 1 << tau_x[x];
+            }
+        }
+        let (class, _) = &c.circles[g.state as usize];
+        let (class2, _) = &c.circles[s2 as usize];
+        let mut l2 = 0u32;
+        for e in 0..2 * d.n {
+            if g.label >> class[e] & 1 == 1 {
+                l2 |= 1 << class2[tau_edge[e]];
+            }
+        }
+        (s2, l2)
+    };
+    // cone generators: B(x) in degree i, Q(x) in degree i+1
+    let lo = *c.degs.first().unwrap();
+    let hi = *c.degs.last().unwrap() + 1;
+    let degs: Vec<i64> = (lo..=hi).collect();
+    let empty: Vec<CubeGen> = vec![];
+    let mut gens: BTreeMap<i64, Vec<CubeGen>> = BTreeMap::new();
+    for &i in &degs {
+        let b = c.gens.get(&i).unwrap_or(&empty);
+        let q = c.gens.get(&(i - 1)).unwrap_or(&empty);
+        gens.insert(i, b.iter().chain(q.iter()).cloned().collect());
+    }
+    let mut dmat: BTreeMap<i64, RMat<Fp<2>>> = BTreeMap::new();
+    for &i in &degs {
+        let nb = c.gens.get(&i).map(|v| v.len()).unwrap_or(0);
+        let nq = c.gens.get(&(i - 1)).map(|v| v.len()).unwrap_or(0);
+        let nb1 = c.gens.get(&(i + 1)).map(|v| v.len()).unwrap_or(0);
+        let nq1 = nb; // Q-part of degree i+1 = C^i
+        let mut m = RMat::<Fp<2>>::zero(nb1 + nq1, nb + nq);
+        if let Some(dm) = c.dmat.get(&i) {
+            // B -> B
+            for r in 0..dm.m {
+                for col in 0..dm.n {
+                    if !dm.at(r, col).is_zero() {
+                        m.set(r, col, Fp(1));
+                    }
+                }
+            }
+        }
+        // B(x) -> Q(x) + Q(tau x)
+        for (col, g) in c.gens.get(&i).unwrap_or(&empty).iter().enumerate() {
+            let (s2, l2) = tau_gen(g);
+            let row_t = *c.index.get(&(s2, l2))?;
+            let v = m.at(nb1 + col, col).add(&Fp(1));
+            m.set(nb1 + col, col, v);
+            let v = m.at(nb1 + row_t, col).add(&Fp(1));
+            m.set(nb1 + row_t, col, v);
+        }
+        // Q -> Q (differential of degree i-1)
+        if let Some(dm) = c.dmat.get(&(i - 1)) {
+            for r in 0..dm.m {
+                for col in 0..dm.n {
+                    if !dm.at(r, col).is_zero() {
+                        m.set(nb1 + r, nb + col, Fp(1));
+                    }
+                }
+            }
+        }
+        dmat.insert(i, m);
+    }
+    // d∘d = 0 in the cone <=> tau is a chain map (self-check of the reference tau)
+    for &i in &degs {
+        if let (Some(a), Some(b)) = (dmat.get(&i), dmat.get(&(i + 1))) {
+            if !b.mul(a).is_zero() {
+                return None;
+            }
+        }
+    }
+    Some(homology_of_complex(&degs, &gens, &dmat, h.is_zero() && t.is_zero()))
 }
